@@ -49,7 +49,10 @@ type c14Case struct {
 	Sys   int
 	CS    int // 0 linear (default), 1 sRGB, 2 gamma 2.2
 	Draws []c14Draw
-	Kind  string
+	// Pic: a raster image of Pic[0] x Pic[1] pixels drawn below the shapes at (Pic[2], Pic[3]) % of the
+	// canvas with Pic[4]/10 px/mm; its pixels are not judged, only that rendering does not alter it
+	Pic  []int `json:",omitempty"`
+	Kind string
 }
 
 func c14Shape(r *core.Rng, size float64, kind string) *canvas.Path {
@@ -162,6 +165,10 @@ func genC14Once(kind string, r *core.Rng) *c14Case {
 		}
 		c.Sys = r.Intn(4)
 		c.CS = core.PickI(r, []int{0, 0, 0, 1, 2})
+		if kind == "images" {
+			c.CS = core.PickI(r, []int{0, 1, 1, 2})
+			c.Pic = []int{r.IntRange(2, 8), r.IntRange(2, 8), r.IntRange(5, 60), r.IntRange(5, 60), core.PickI(r, []int{10, 20, 5, 37})}
+		}
 		n := r.IntRange(1, 3)
 		for k := 0; k < n; k++ {
 			size := math.Min(c.W, c.H) * r.Range(0.4, 0.9)
@@ -295,6 +302,20 @@ func c14Check(ci any, o *core.Obs) {
 	ctx := canvas.NewContext(cv)
 	ctx.SetCoordSystem(canvas.CoordSystem(c.Sys))
 	var layers []*c14Layer
+	var pic, picCopy *image.RGBA
+	if len(c.Pic) == 5 {
+		pic = image.NewRGBA(image.Rect(0, 0, c.Pic[0], c.Pic[1]))
+		for i := range pic.Pix {
+			pic.Pix[i] = uint8(60 + 17*i%120)
+			if i%4 == 3 {
+				pic.Pix[i] = 255
+			}
+		}
+		picCopy = image.NewRGBA(pic.Bounds())
+		copy(picCopy.Pix, pic.Pix)
+		ctx.SetZIndex(-5)
+		ctx.DrawImage(c.W*float64(c.Pic[2])/100, c.H*float64(c.Pic[3])/100, pic, canvas.DPMM(float64(c.Pic[4])/10))
+	}
 	for k := range c.Draws {
 		d := &c.Draws[k]
 		p := pathFrom(d.Data)
@@ -412,8 +433,23 @@ func c14Check(ci any, o *core.Obs) {
 		return
 	}
 	if !bytes.Equal(img.Pix, img2.Pix) {
-		o.Fail("repeat", "rendering the same canvas twice gives different images")
+		o.Fail("repeat", "rendering the same canvas twice gives different images; %s", c14Str(c))
 		return
+	}
+	if pic != nil && !bytes.Equal(pic.Pix, picCopy.Pix) {
+		o.Fail("image-changed", "rendering changed the pixels of the image drawn on the canvas (first pixel %v, was %v); %s", pic.Pix[:4], picCopy.Pix[:4], c14Str(c))
+		return
+	}
+	// the box of the image on the canvas (from the recorded call), two pixels wider: not judged
+	picBox := geom.EmptyBox()
+	for _, cl := range before {
+		if cl.Kind == "image" && cl.Img != nil {
+			m := affOf(cl.M)
+			b := cl.Img.Bounds()
+			for _, q := range []Pt{{0, 0}, {float64(b.Dx()), 0}, {0, float64(b.Dy())}, {float64(b.Dx()), float64(b.Dy())}} {
+				picBox = picBox.Add(m.dot(q))
+			}
+		}
 	}
 	after := snap()
 	if len(before) != len(after) {
@@ -523,6 +559,10 @@ func c14Check(ci any, o *core.Obs) {
 	judged, skipped := 0, 0
 	for _, s := range samples {
 		q := Pt{X: (float64(s.i) + 0.5) / c.DPMM, Y: (float64(hpx) - (float64(s.j) + 0.5)) / c.DPMM}
+		if !picBox.Empty() && q.X > picBox.X0-6/c.DPMM && q.X < picBox.X1+6/c.DPMM && q.Y > picBox.Y0-6/c.DPMM && q.Y < picBox.Y1+6/c.DPMM {
+			skipped++
+			continue
+		}
 		// expected colour: premultiplied RGBA in 0..255, known or not
 		var exp [4]float64
 		known := true
@@ -726,6 +766,7 @@ func init() {
 			{Name: "view", Quick: 300, Thorough: 25000, Gen: genC14("view")},
 			{Name: "rule", Quick: 300, Thorough: 15000, Gen: genC14("rule")},
 			{Name: "lowres", Quick: 300, Thorough: 8000, Gen: genC14("lowres")},
+			{Name: "images", Quick: 200, Thorough: 4000, Gen: genC14("images"), Note: "a raster image below the shapes, mostly in non-linear colour spaces: rendering twice gives the same image and leaves the source image alone (the image's own pixels are not judged)"},
 			{Name: "gradient-stops", Quick: 300, Thorough: 8000, Gen: genC14("gradient-stops"), Note: "linear gradients of 2-4 stops whose first stop may lie after 0 and whose last before 1"},
 			{Name: "dense", Quick: 60, Thorough: 1500, Gen: genC14("dense"), Note: "closed polylines of 600-3000 vertices, hundredths of a pixel apart"},
 			{Name: "border", Quick: 300, Thorough: 6000, Gen: genC14("border"), WitnessOnly: true, Note: "shapes crossing the top or the left border of the image: geometry within one pixel outside those borders is accumulated into row 0 / column 0 (integer truncation in the scanx dependency), about 1 case in 100"},
